@@ -256,6 +256,10 @@ impl<'r> Builder<'r> {
             let flip = |n: &str| -> String { n.chars().map(|c| if c.is_ascii_lowercase() { c.to_ascii_uppercase() } else { c.to_ascii_lowercase() }).collect() };
             let cname = if record {
                 "Default".to_string()
+            } else if !cases.is_empty() && !cases.iter().any(|c: &Case| c.name == "Default") && self.rng.chance(1, 6) {
+                // the name the language gives the implicit case of a record, here as an ordinary later case
+                self.tag("variant-case-named-Default-not-first");
+                "Default".to_string()
             } else if !cases.is_empty() && self.rng.chance(1, 5) {
                 let prev: &Case = &cases[self.rng.usize(cases.len())];
                 let f = flip(&prev.name);
@@ -587,7 +591,21 @@ impl<'r> Builder<'r> {
             Ty::Map(k, v) => {
                 let n = 1 + self.rng.usize(2);
                 self.tag("map-literal");
-                E::Map((0..n).map(|_| (self.data_expr(k, pos, depth + 1), self.data_expr(v, pos, depth + 1))).collect())
+                let mut entries: Vec<(E, E)> = (0..n).map(|_| (self.data_expr(k, pos, depth + 1), self.data_expr(v, pos, depth + 1))).collect();
+                // a map is an association list: an entry written twice (same key and value), or a key repeated
+                // with another value, stays twice
+                if !entries.is_empty() && self.rng.chance(1, 5) {
+                    let e = entries[self.rng.usize(entries.len())].clone();
+                    if self.rng.bool() {
+                        self.tag("map-entry-repeated-verbatim");
+                        entries.push(e);
+                    } else {
+                        self.tag("map-key-repeated");
+                        let v2 = self.data_expr(v, pos, depth + 1);
+                        entries.push((e.0, v2));
+                    }
+                }
+                E::Map(entries)
             }
             Ty::Custom(name) => {
                 let td = self.g.prog.types.iter().find(|t| t.name == *name).cloned().expect("declared type");
@@ -1447,6 +1465,22 @@ pub fn world(g: &Generated, ti: usize, rng: &mut Rng, cfg: &Cfg) -> World {
                     }
                     _ => {}
                 }
+            }
+        }
+    }
+    // hostile correlation: two withdrawals whose reward accounts carry the same 28-byte hash, one as a key
+    // credential and one as a script credential (only the header byte tells them apart)
+    {
+        let from_parties: Vec<String> = tx.cardano.iter().filter_map(|c| if let Cardano::Withdrawal { from: E::Party(p), .. } = c { Some(p.to_lowercase()) } else { None }).collect();
+        if from_parties.len() >= 2 && from_parties[0] != from_parties[1] && rng.chance(1, 2) {
+            let first = match w.args.get(&from_parties[0]) {
+                Some(V::Address(a)) => super::sem::reward_account(a),
+                _ => None,
+            };
+            if let Some(acct) = first {
+                let mut twin = acct.clone();
+                twin[0] ^= 0x10; // 0xe0 <-> 0xf0, same network
+                w.args.insert(from_parties[1].clone(), V::Address(twin));
             }
         }
     }
